@@ -627,150 +627,4 @@ Proof.
       rewrite (lw_read_address_enc _ _ _ _ Hs Hmf). cbn [bind].
       rewrite (lw_read_address_enc _ _ _ _ Hs Hp). cbn [bind].
       destruct ((mask_of asz =? 0) && (a =? 0)) eqn:E0; [lia|].
-      rewrite N.eqb_refl.
-      replace (flat_map (enc_pair4 loc be asz) ps ++ enc_word be asz 0 ++ enc_word be asz 0 ++ rest)
-        with (enc_list4 loc be asz ps ++ rest) by (unfold enc_list4; rewrite <- !app_assoc; reflexivity).
-      rewrite IH by (try assumption; lia). reflexivity.
-    + (* address or offset pair *)
-      destruct Hp as [Hb [He [Hnz [Hd Hn]]]]. cbn [pair_nomark] in Hq.
-      cbn [enc_pair4] in *. rewrite !app_length, !lw_enc_word_length in Hf.
-      unfold enc_word at 1 2. rewrite <- !app_assoc. cbn [dec4_fuel].
-      rewrite (lw_read_address_enc _ _ _ _ Hs Hb). cbn [bind].
-      rewrite (lw_read_address_enc _ _ _ _ Hs He). cbn [bind].
-      destruct ((b =? 0) && (e =? 0)) eqn:E0; [lia|].
-      destruct (b =? mask_of asz) eqn:E1; [lia|].
-      rewrite (lw_opt_data4 dbg _ _ _ _ Hd Hn). cbn [bind].
-      replace (flat_map (enc_pair4 loc be asz) ps ++ enc_word be asz 0 ++ enc_word be asz 0 ++ rest)
-        with (enc_list4 loc be asz ps ++ rest) by (unfold enc_list4; rewrite <- !app_assoc; reflexivity).
-      rewrite IH by (try assumption; lia). reflexivity.
-Qed.
-
-Lemma lw_dec4_enc_full dbg loc be asz ps rest :
-  size_ok asz -> Forall (pair_ok loc asz) ps -> Forall (pair_nomark asz) ps ->
-  dec4 dbg loc be asz (enc_list4 loc be asz ps ++ rest) = Ok (ps, rest).
-Proof.
-  intros Hs Hok Hnm. unfold dec4. apply lw_dec4_enc; try assumption.
-  unfold enc_list4. rewrite !app_length. lia.
-Qed.
-
-(* A4: without a marker clash in the list no emitted non-base pair begins with the marker *)
-Lemma lw_nomark asz : forall l ps,
-  pairs_of l = Some ps -> ~ marker_clash asz l -> Forall (pair_nomark asz) ps.
-Proof.
-  induction l as [|x r IH]; intros ps Hp Hc; cbn [pairs_of] in Hp.
-  - inversion Hp; subst. constructor.
-  - destruct (pair_of x) as [p|] eqn:Ex; [|discriminate].
-    destruct (pairs_of r) as [ps'|] eqn:Er; [|discriminate]. inversion Hp; subst.
-    constructor.
-    + destruct p as [a|b e d|b e d|b len d|d|b e d]; cbn [pair_nomark]; try exact I.
-      intros Hb. apply Hc. exists x. split; [left; reflexivity|].
-      rewrite lw_mask_amod in Hb. subst b.
-      destruct x as [[a|s z]|b' e' d'|[b'|s z] [e'|s' z'] d'|[b'|s z] len d'|d']; cbn [pair_of begin_of] in *;
-        try discriminate; inversion Ex; subst; reflexivity.
-    + apply (IH _ eq_refl). intros [y [Hy Hb]]. apply Hc. exists y. split; [right; exact Hy|exact Hb].
-Qed.
-
-Lemma lw_pairs_ents : forall l ps, pairs_of l = Some ps -> exists es, ents_of l = Some es.
-Proof.
-  induction l as [|x r IH]; intros ps Hp; cbn [pairs_of ents_of] in *; [eauto|].
-  destruct (pair_of x) as [p|] eqn:Ex; [|discriminate].
-  destruct (pairs_of r) as [ps'|] eqn:Er; [|discriminate].
-  destruct (IH _ eq_refl) as [es ->].
-  destruct x as [[a|s z]|b' e' d'|[b'|s z] [e'|s' z'] d'|[b'|s z] len d'|d']; cbn [pair_of ent_of] in *;
-    try discriminate; eauto.
-Qed.
-
-(* R1: a list that must be rejected never produces bytes *)
-Lemma lw_never_bytes dbg loc be version asz : forall l hb bs,
-  write_list_v4 dbg loc be version asz hb l = Ok bs -> Forall (wf loc) l -> rejected hb l = None.
-Proof.
-  induction l as [|x r IH]; intros hb bs H Hwf; [reflexivity|].
-  inversion Hwf as [|? ? Hx Hr]; subst. destruct Hx as [Hxw _].
-  cbn [write_list_v4] in H. cbn [rejected].
-  destruct x as [a|b e d|b e d|b len d|d]; cbn [wloc_wf reject_entry is_base] in *.
-  - bind_ok H. bind_ok H. bind_ok H. bind_ok H. rewrite orb_true_r. eapply IH; eauto.
-  - destruct (b =? e) eqn:Ebe; [discriminate|]. destruct hb; cbn [negb] in H; [|discriminate].
-    bind_ok H. bind_ok H. bind_ok H. bind_ok H. cbn [orb]. eapply IH; eauto.
-  - destruct (addr_eqb b e) eqn:Ebe; [discriminate|]. destruct hb; [discriminate|].
-    bind_ok H. bind_ok H. bind_ok H. bind_ok H. cbn [orb]. eapply IH; eauto.
-  - bind_ok H. destruct (addr_eqb b a) eqn:Ebe; [discriminate|]. destruct hb; [discriminate|].
-    bind_ok H. bind_ok H. bind_ok H. bind_ok H.
-    destruct b as [v|s z]; [|discriminate E0].
-    pose proof (lw_sle_const _ _ _ _ E) as ->. cbn [addr_eqb] in Ebe.
-    destruct (len =? 0) eqn:El.
-    { assert (len = 0) by lia; subst len. destruct Hxw as [Hv _]. cbn [addr_wf] in Hv.
-      rewrite N.add_0_r, N.mod_small in Ebe by exact Hv. rewrite N.eqb_refl in Ebe. discriminate. }
-    cbn [orb]. eapply IH; eauto.
-  - discriminate.
-Qed.
-
-Lemma lw_ones_sized_valid dbg asz : size_ok asz -> ones_sized dbg asz = Ok (mask_of asz).
-Proof. intros [-> | [-> | [-> | ->]]]; destruct dbg; vm_compute; reflexivity. Qed.
-
-Lemma lw_opt_expr4_fits loc be version d :
-  version <= 4 -> N.of_nat (length d) < 65536 -> exists x, opt_expression loc be version d = Ok x.
-Proof.
-  intros Hv Hd. unfold opt_expression, write_expression. destruct loc; [|eauto].
-  destruct (version <=? 4) eqn:E; [|lia].
-  rewrite (lw_write_udata_fits be _ 2) by (unfold size_ok; auto). cbn [bind]. eauto.
-Qed.
-
-Lemma lw_to_i64_nonzero len : len < 2 ^ 64 -> len <> 0 -> to_i64 len <> 0%Z.
-Proof.
-  intros Hl Hn. unfold to_i64, to_signed, wrapN. rewrite N.mod_small by exact Hl.
-  change (2 ^ (64 - 1)) with 9223372036854775808. change (2 ^ 64) with 18446744073709551616 in *.
-  destruct (len <? 9223372036854775808) eqn:E; lia.
-Qed.
-
-(* R2: the first entry that must be rejected decides the result, with exactly the error of the rule *)
-Lemma lw_rejects dbg loc be version asz : size_ok asz -> version <= 4 -> forall l hb e,
-  Forall wloc_wf l -> rejected hb l = Some e -> plain_until_reject asz hb l = true ->
-  write_list_v4 dbg loc be version asz hb l = Err e.
-Proof.
-  intros Hs Hv. pose proof (lw_amod_le_64 _ Hs) as H64.
-  induction l as [|x r IH]; intros hb e Hwf Hrej Hpl; [discriminate|].
-  inversion Hwf as [|? ? Hxw Hr]; subst.
-  cbn [rejected plain_until_reject] in *. cbn [write_list_v4].
-  destruct (reject_entry hb x) as [e'|] eqn:Ere.
-  - (* x is the offender *)
-    inversion Hrej; subst e'. clear IH Hrej.
-    destruct x as [a|b e0 d|b e0 d|b len d|d]; cbn [reject_entry sum_fits wloc_wf] in *.
-    + discriminate.
-    + destruct (b =? e0); [inversion Ere; reflexivity|]. destruct hb; [discriminate|]. inversion Ere; reflexivity.
-    + destruct (addr_eqb b e0); [inversion Ere; reflexivity|]. destruct hb; [|discriminate]. inversion Ere; reflexivity.
-    + destruct Hxw as [Hb Hl]. destruct b as [v|s z]; cbn [start_length_end addr_wf] in *.
-      * unfold chk_add. destruct (v + len <? 2 ^ 64) eqn:Es; [|discriminate]. cbn [bind addr_eqb].
-        destruct (len =? 0) eqn:El.
-        -- inversion Ere; subst. assert (len = 0) by lia; subst. rewrite N.add_0_r, N.eqb_refl. reflexivity.
-        -- destruct (v =? v + len) eqn:Ev; [lia|]. destruct hb; [|discriminate]. inversion Ere; reflexivity.
-      * unfold chk_s. change (in_signed 64 (z + to_i64 len)) with (in_i64 (z + to_i64 len)). rewrite Hpl. cbn [bind addr_eqb].
-        destruct (len =? 0) eqn:El.
-        -- inversion Ere; subst. assert (len = 0) by lia; subst. change (to_i64 0) with 0%Z.
-           rewrite Z.add_0_r, N.eqb_refl, Z.eqb_refl. reflexivity.
-        -- pose proof (lw_to_i64_nonzero len Hl ltac:(lia)) as Hnz. rewrite N.eqb_refl. cbn [andb].
-           destruct (z =? z + to_i64 len)%Z eqn:Ez; [lia|]. destruct hb; [|discriminate]. inversion Ere; reflexivity.
-    + inversion Ere; reflexivity.
-  - (* x is plain; the error comes from the rest *)
-    apply andb_prop in Hpl. destruct Hpl as [Hp Hpl].
-    specialize (IH _ _ Hr Hrej Hpl).
-    destruct x as [a|b e0 d|b e0 d|b len d|d]; cbn [reject_entry plainb is_base wloc_wf] in *.
-    + destruct a as [v|s z]; [|discriminate]. rewrite orb_true_r in IH.
-      rewrite (lw_ones_sized_valid dbg _ Hs). cbn [bind].
-      destruct (lw_mask_pos _ Hs) as [_ Hmf].
-      rewrite (lw_write_udata_fits be _ _ Hs Hmf). cbn [bind write_address].
-      rewrite (lw_write_udata_fits be _ _ Hs) by lia. cbn [bind]. rewrite IH. reflexivity.
-    + destruct (b =? e0); [discriminate|]. destruct hb; [|discriminate]. cbn [negb orb] in *.
-      rewrite !(lw_write_udata_fits be _ _ Hs) by lia. cbn [bind].
-      destruct (lw_opt_expr4_fits loc be version d Hv ltac:(lia)) as [xx ->]. cbn [bind]. rewrite IH. reflexivity.
-    + destruct b as [vb|s z]; [|discriminate]. destruct e0 as [ve|s z]; [|discriminate].
-      destruct (addr_eqb (AConst vb) (AConst ve)); [discriminate|]. destruct hb; [discriminate|]. cbn [orb write_address] in *.
-      rewrite !(lw_write_udata_fits be _ _ Hs) by lia. cbn [bind].
-      destruct (lw_opt_expr4_fits loc be version d Hv ltac:(lia)) as [xx ->]. cbn [bind]. rewrite IH. reflexivity.
-    + destruct b as [vb|s z]; [|discriminate].
-      destruct (len =? 0) eqn:El; [discriminate|]. destruct hb; [discriminate|]. cbn [orb] in *.
-      cbn [start_length_end]. unfold chk_add. destruct (vb + len <? 2 ^ 64) eqn:Es; [|lia]. cbn [bind addr_eqb].
-      destruct (vb =? vb + len) eqn:Ev; [lia|]. cbn [write_address].
-      rewrite !(lw_write_udata_fits be _ _ Hs) by lia. cbn [bind].
-      destruct (lw_opt_expr4_fits loc be version d Hv ltac:(lia)) as [xx ->]. cbn [bind]. rewrite IH. reflexivity.
-    + discriminate.
-Qed.
+Show.
